@@ -22,9 +22,9 @@ def run(chk):
                     'the all-zero address (so a faucet marker, which is locked to it, can never be spent)')
     chk.assume_note("induction: a marker once written is never removed (inputs need a covenant with the coin's own covenant "
                     'hash -- obligation MARKER-UNSPENDABLE; melmint only removes index-1 outputs of deposit transactions)')
-    handle_kernel(chk, it)
-    callsite_kernel(chk, it)
-    marker_unspendable(chk, it)
+    chk.guard(handle_kernel, chk, it)
+    chk.guard(callsite_kernel, chk, it)
+    chk.guard(marker_unspendable, chk, it)
 
 
 def marker_key(st, txh):
